@@ -38,7 +38,7 @@ theorem convertOp_wf (env : Env) (henv : EnvRanges env) (enc : Encoding) (offset
     · simp only [except_bind_ok, pure, Except.pure, Except.ok.injEq] at h
       obtain ⟨id, _, rfl⟩ := h
       exact hr.1
-    · simp only [pure, Except.pure, Except.ok.injEq] at h; subst h; exact hr
+    · simp only [pure, Except.pure, Except.ok.injEq] at h; subst h; exact ⟨hr.1, hr.2.1⟩
   case piece bits bo =>
     cases bo with
     | none =>
@@ -184,7 +184,7 @@ macro "rng_close" : tactic => `(tactic|
     | trivial
     | assumption
     | omega
-    | (refine ⟨?_, ?_, ?_⟩ <;> first | assumption | omega | (exact (by assumption : _ ∧ _).1) | (exact (by assumption : _ ∧ _).2))
+    | (refine ⟨?_, ?_, ?_⟩ <;> first | assumption | omega | simp)
     | (refine ⟨?_, ?_⟩ <;> first | assumption | omega)
     | (left; omega)
     | (right; exact ⟨rfl, rfl⟩)
@@ -217,7 +217,7 @@ theorem parseOperands_rwf (e : Endian) (enc : Encoding) (opc : Nat) (rest : Byte
   split
   · refine rng_bind_signed _ _ _ (fun v r hv => ?_)
     refine rng_pure _ _ _ ?_
-    simp only [RWf]; exact ⟨by omega, hv⟩
+    simp only [RWf]; exact ⟨by omega, hv, by simp⟩
   split
   all_goals rng_tac
 
